@@ -857,7 +857,8 @@ fn main() {
             }
         }
         ctl.decisions.push(json!({"enabled": enabled, "chosen": choice, "running": running, "sys": st.name,
-                                  "path": st.paths.first().cloned().or(st.fd_path.clone())}));
+                                  "path": st.paths.first().cloned().or(st.fd_path.clone()),
+                                  "paths": st.paths.clone(), "fd_path": st.fd_path.clone(), "flags": st.flags}));
         di += 1;
         running = Some(choice);
         if !ctl.release(choice) {
